@@ -29,7 +29,24 @@ type Region struct {
 	sites map[*ssa.Function][]ssa.CallInstruction // call sites of each helper inside the region
 }
 
-var regionCache = map[*ssa.Function]*Region{}
+type regionKey struct {
+	fn    *ssa.Function
+	cycle bool
+}
+
+var regionCache = map[regionKey]*Region{}
+
+// cycleStages: while set, regions also expand unexported functions that lead back to the root (the stages a recursive
+// function was split into: collect / sort / emit, where emit recurses into the root for each child).
+var cycleStages bool
+
+// WithCycleStages runs f with regions that expand the stages of recursive algorithms.
+func WithCycleStages(f func()) {
+	old := cycleStages
+	cycleStages = true
+	defer func() { cycleStages = old }()
+	f()
+}
 
 // HelperCallee returns the function whose body a call instruction runs when that function is a helper in the sense
 // above: a static callee with a body that is an unexported function or method of the caller's package, or a closure
@@ -86,7 +103,7 @@ func reachesStatic(from, to *ssa.Function) bool {
 
 // RegionOf computes (and caches) the region of root.
 func RegionOf(root *ssa.Function) *Region {
-	if r, ok := regionCache[root]; ok {
+	if r, ok := regionCache[regionKey{root, cycleStages}]; ok {
 		return r
 	}
 	r := &Region{Root: root, Fns: []*ssa.Function{root}, in: map[*ssa.Function]bool{root: true}, sites: map[*ssa.Function][]ssa.CallInstruction{}}
@@ -101,13 +118,17 @@ func RegionOf(root *ssa.Function) *Region {
 					continue
 				}
 				if !r.in[g] {
-					// a function that leads back to the root is the recursion of the algorithm, not a helper of this activation
-					if rec, ok := recursive[g]; ok && rec {
-						continue
-					} else if !ok {
-						recursive[g] = reachesStatic(g, root)
-						if recursive[g] {
+					// a function that leads back to the root is the recursion of the algorithm, not a helper of this
+					// activation - unless the rule asked for the stages of a recursive algorithm to be expanded too
+					// (WithCycleStages); the root itself is never re-entered either way
+					if !cycleStages {
+						if rec, ok := recursive[g]; ok && rec {
 							continue
+						} else if !ok {
+							recursive[g] = reachesStatic(g, root)
+							if recursive[g] {
+								continue
+							}
 						}
 					}
 					if len(r.Fns) >= regionMaxFns {
@@ -123,7 +144,7 @@ func RegionOf(root *ssa.Function) *Region {
 		frontier = next
 	}
 	// call sites found in the last layer's functions (calls among helpers already in the region)
-	regionCache[root] = r
+	regionCache[regionKey{root, cycleStages}] = r
 	return r
 }
 
